@@ -22,7 +22,7 @@ Inductive crule :=
 | ROracle (m : nat) (w : list qi) (V : list (list qi))   (* dense / Krylov rule: the oracle's output as data *)
 | RIdent
 | RDiag (d : list qi)
-| RTri (A : list (list qi)).
+| RTri (A : list (list qi)) (real_buffer : bool).
 Record ecase := mkecase { cn : nat; crl : crule; ck : Z; cwh : which; ctol2 : Qc;   (* squared tolerance; 0 = exact *)
                           cok : bool;                       (* the implementation returned a result *)
                           cw : list qi; cV : list (list qi) }.
@@ -31,7 +31,7 @@ Definition run_rule (c : ecase) : option (eout (R:=qi)) :=
   | ROracle m w V => eig_oracle m (vecl w) (matl V) (ck c) (cwh c)
   | RIdent => eig_ident (cn c) (ck c) (cwh c)
   | RDiag d => eig_diag qi_leb (cn c) (vecl d) (ck c) (cwh c)
-  | RTri A => eig_tri qi_leb usolve (cn c) (matl A) (ck c) (cwh c)
+  | RTri A rb => eig_tri qi_leb usolve (if rb then (fun x => (fst x, 0%Qc)) else (fun x => x)) (cn c) (matl A) (ck c) (cwh c)
   end.
 Definition check_ecase (c : ecase) : bool :=
   match run_rule c with
@@ -111,8 +111,16 @@ Proof. eexists. split; [reflexivity|]. split; [vm_compute; reflexivity|]. split;
 (* Triangular rule applied to a LOWER triangular matrix: the routine returns the identity columns *)
 Definition L_tri : list (list qi) := [[qz 1; qz 0]; [qz 3; qz 2]].
 Theorem eig_tri_lower_refuted :
-  exists o, eig_tri qi_leb usolve 2 (matl L_tri) 2 LM = Some o /\ ~ EigPairs 2 (matl L_tri) o.
+  exists o, eig_tri qi_leb usolve (fun x => x) 2 (matl L_tri) 2 LM = Some o /\ ~ EigPairs 2 (matl L_tri) o.
 Proof. eexists. split; [reflexivity|]. match goal with |- ~ EigPairs _ _ ?oo => set (o := oo) end. intros H. assert (Hk : (0 < ek o)%nat) by (vm_compute; lia); destruct (H 0%nat Hk) as [H1 _]. specialize (H1 1%nat ltac:(lia)).
+  revert H1. apply qi_neq. vm_compute. reflexivity. Qed.
+
+(* complex upper-triangular input: the solutions are written into a float64 buffer and lose their imaginary part *)
+Definition U_cplx : list (list qi) := [[qic 1 1 1 1; qz 2]; [qz 0; qic 2 1 (-1) 1]].
+Theorem eig_tri_complex_refuted :
+  exists o, eig_tri qi_leb usolve (fun x => (fst x, 0%Qc)) 2 (matl U_cplx) 2 LM = Some o /\ ~ EigPairs 2 (matl U_cplx) o.
+Proof. eexists. split; [reflexivity|]. match goal with |- ~ EigPairs _ _ ?oo => set (o := oo) end. intros H.
+  assert (Hk : (1 < ek o)%nat) by (vm_compute; lia). destruct (H 1%nat Hk) as [H1 _]. specialize (H1 0%nat ltac:(lia)).
   revert H1. apply qi_neq. vm_compute. reflexivity. Qed.
 
 (* power iteration on A = diag(-5,1,2) from v0 = (2,1,1): the relative-change test divides by the (negative) value,
@@ -132,6 +140,6 @@ Proof. intros fsqrt. cbn zeta. unfold power_iteration. change 100%nat with (S (S
 
 (* satisfiable hypotheses: an upper-triangular matrix with distinct diagonal and its eigenpairs from the Triangular rule *)
 Definition U_ex : list (list qi) := [[qz 2; qz 1; qz 4]; [qz 0; qz (-3); qz 5]; [qz 0; qz 0; qz 1]].
-Example eig_tri_example : exists o, eig_tri qi_leb usolve 3 (matl U_ex) 2 LM = Some o /\ ek o = 2%nat /\
+Example eig_tri_example : exists o, eig_tri qi_leb usolve (fun x => x) 3 (matl U_ex) 2 LM = Some o /\ ek o = 2%nat /\
   feqb 3 2 (mmul 3 (matl U_ex) (eV o)) (fun i j => qimul (ew o j) (eV o i j)) = true.
 Proof. eexists. split; [reflexivity|]. split; vm_compute; reflexivity. Qed.
